@@ -156,6 +156,13 @@ Definition mk_if (c : expr) (th : block) (elifs : list (expr * block)) (els : op
 Fixpoint block_of (l : list stmt) : block :=
   match l with [] => BNil | s :: r => BCons s (block_of r) end.
 
+(* the statement forms of DESIGN.md section 6 as instances of [Assign] *)
+Definition AssignFull (x : sig) (rhs : expr) : stmt := Assign x [] rhs.                           (* x = rhs *)
+Definition AssignSlice (x : sig) (off w : nat) (rhs : expr) : stmt := Assign x [SStatic off w] rhs. (* x(off, w_b) = rhs *)
+Definition AssignBit (x : sig) (i : nat) (rhs : expr) : stmt := Assign x [SBit i] rhs.              (* x[i] = rhs *)
+Definition AssignDyn (x : sig) (idx : expr) (idxw w : nat) (rhs : expr) : stmt :=
+  Assign x [SDynSlice idx idxw w] rhs.                                                              (* x(idx, w_b) = rhs *)
+
 (* static parameters of a dynamic slice exactly as the C++ computes them:
    (maxDynamicIndex, offsetMul, width) *)
 Definition dyn_slice_params (idxw w : nat) : nat * nat * nat := (2 ^ idxw - 1, 1, w).
